@@ -107,7 +107,15 @@ def check(case):
         aslack = 2.0 * float(np.sum((Rp + z) * dz)) * math.exp(-10.0) / (Rs * Rs)
         rslack = 0.0
     else:
-        aslack, rslack = 1e-300, math.exp(-10.0)
+        # the cut-off decision depends on which wavenumbers are computed together: a layer term of at most
+        # e^-10 x B(T_layer) may be present in one run and skipped in the other -- an ABSOLUTE amount in units of the
+        # hottest layer's blackbody ratio (cold upper layers can make the spectrum itself much smaller)
+        Rp = w['radius'] * synth.RJUP
+        Rs = w['star_R'] * RSUN
+        Tmax = float(np.max(np.asarray(m.temperatureProfile, dtype=float)))
+        hot = ref.planck_wn(native, Tmax) / ref.planck_wn(native, w['star_T']) * (Rp / Rs) ** 2
+        hot_at = dict(zip(native.tolist(), (math.exp(-10.0) * hot).tolist()))
+        aslack, rslack = math.exp(-10.0) * float(np.max(hot)), 0.0
 
     def same_at_common(label, res):
         g = np.asarray(res[0], dtype=float)
@@ -119,7 +127,8 @@ def check(case):
         if not np.all(np.isin(sub, g)):
             out.fail(label + '@grid-missing', 'requested points missing from the returned grid')
             return
-        if not close(s, fspec[idx], rtol=1e-9 + rslack, atol=aslack):
+        at = aslack if family == 'transmission' else np.array([hot_at.get(float(x), aslack) for x in g])
+        if not np.all(np.abs(s - fspec[idx]) <= 1e-9 * np.abs(fspec[idx]) + at + 1e-300):
             k = int(np.argmax(np.abs(s - fspec[idx]) / np.maximum(np.abs(fspec[idx]), 1e-300)))
             out.fail('%s@%s,%s' % (label, family, tag),
                      'at %.6g cm-1 (point %d of %d returned): restricted %r full %r (max rel %.2e)'
